@@ -364,6 +364,7 @@ type c08H1Peer struct {
 	mu    sync.Mutex
 	conns []net.Conn
 	hold  chan struct{} // /hold requests wait for this
+	held  chan struct{} // closed when the first /hold request has arrived
 }
 
 func newC08H1Peer() (*c08H1Peer, error) {
@@ -371,7 +372,7 @@ func newC08H1Peer() (*c08H1Peer, error) {
 	if err != nil {
 		return nil, err
 	}
-	p := &c08H1Peer{ln: ln, hold: make(chan struct{})}
+	p := &c08H1Peer{ln: ln, hold: make(chan struct{}), held: make(chan struct{})}
 	go func() {
 		for {
 			c, err := ln.Accept()
@@ -456,6 +457,7 @@ func (p *c08H1Peer) serve(c net.Conn) {
 			}
 			continue
 		case strings.HasPrefix(path, "/hold"):
+			c08Open(p.held)
 			select {
 			case <-p.hold:
 			case <-time.After(c08HardLimit):
